@@ -43,14 +43,20 @@ class EndpointParameterProcessor:
         ordered_params: List[dict[str, Any]] = []
         param_details_map: dict[str, dict[str, Any]] = {}
 
+        # The URL template refers to path parameters by their plain sanitised name, so those names are theirs
+        path_param_names = {NameSanitizer.sanitize_method_name(p.name) for p in op.parameters if p.param_in == "path"}
+
         for param in op.parameters:
             param_name_sanitized = NameSanitizer.sanitize_method_name(param.name)
             # Distinct parameters (e.g. path `id` and query `id`, or `user-id` and `user_id`) can sanitise to
             # the same Python name: suffix until unused. The wire name is kept in `original_name`.
-            if param_name_sanitized in param_details_map:
+            taken_names = set(param_details_map)
+            if param.param_in != "path":
+                taken_names |= path_param_names
+            if param_name_sanitized in taken_names:
                 base_param_name = param_name_sanitized
                 suffix = 2
-                while param_name_sanitized in param_details_map:
+                while param_name_sanitized in taken_names:
                     param_name_sanitized = f"{base_param_name}_{suffix}"
                     suffix += 1
             param_info = {
